@@ -438,7 +438,15 @@ def gen_pass(rng):
     if rng.random() < 0.17:
         for _ in range(40):
             c2 = _gen_pass_one(rng)
-            if c2["kind"] == c1["kind"] and c2["patterns"] == c1["patterns"] and c2["consts"] == c1["consts"] and c2["elem_bytes"] == c1["elem_bytes"] and c2["bounds"] != c1["bounds"]:
+            same = c2["kind"] == c1["kind"] and c2["patterns"] == c1["patterns"] and c2["consts"] == c1["consts"]
+            if same and c2["elem_bytes"] != c1["elem_bytes"] and c2["bounds"] == c1["bounds"]:
+                # same shape, other element type: the constraints the pass requests differ although template and patterns agree
+                c = dict(c1)
+                c["text"] = c1["text"] + c2["text"].replace("func.func @f(", "func.func @f2(")
+                c["multi"] = [list(c1["bounds"]), list(c2["bounds"])]
+                c["kind"] = c1["kind"] + "+same-shape-other-element-type"
+                return c
+            if same and c2["elem_bytes"] == c1["elem_bytes"] and c2["bounds"] != c1["bounds"]:
                 c = dict(c1)
                 c["text"] = c1["text"] + c2["text"].replace("func.func @f(", "func.func @f2(")
                 c["multi"] = [list(c1["bounds"]), list(c2["bounds"])]
@@ -499,7 +507,7 @@ def _gen_pass_one(rng):
     else:
         acc = "snax_alu"
         body_kind = "test3"
-        bits = [64, 64, 64]
+        bits = [rng.choice([64, 64, 32, 16, 8])] * 3
         if kind == "alu":
             bounds = [rng.choice([4, 8, 16, 64, 12, 6, 2, 1, 20])]
             pats = [[unit(1, 0)]] * 3
@@ -581,11 +589,11 @@ def _gen_pass_one(rng):
     else:
         body = (
             f'    %g = "dart.generic"(%s0, %s1) ({{\n'
-            f"    ^bb1(%i0 : i64, %i1 : i64, %o : i64):\n"
-            f'      %m = "test.op"(%i0, %i1) : (i64, i64) -> i64\n'
-            f"      dart.yield %m : i64\n"
-            f"    }}) : (!dart.stream<i64>, !dart.stream<i64>) -> !dart.stream<i64>\n"
-            f"    dart.yield %g : !dart.stream<i64>\n"
+            f"    ^bb1(%i0 : i{ob}, %i1 : i{ob}, %o : i{ob}):\n"
+            f'      %m = "test.op"(%i0, %i1) : (i{ob}, i{ob}) -> i{ob}\n'
+            f"      dart.yield %m : i{ob}\n"
+            f"    }}) : (!dart.stream<i{ob}>, !dart.stream<i{ob}>) -> !dart.stream<i{ob}>\n"
+            f"    dart.yield %g : !dart.stream<i{ob}>\n"
         )
     operands = ", ".join(f"%a{i}" for i in range(len(pats)))
     text = (
